@@ -109,10 +109,10 @@ def declare(ty, name, ind=''):
 
 class Gen:
     def __init__(self, rng, bitfields=True, packed=False, aligned=True, fp=True, flex=False, max_depth=3, max_members=6, unions=True,
-                 anon=True, zero_width=True, ldouble=True, alignas=True, unnamed_bf=True):
+                 anon=True, zero_width=True, ldouble=True, alignas=True, unnamed_bf=True, zw_alone=False):
         self.rng = rng
         self.o = dict(bitfields=bitfields, packed=packed, aligned=aligned, fp=fp, flex=flex, unions=unions, anon=anon, zero_width=zero_width,
-                      ldouble=ldouble, alignas=alignas, unnamed_bf=unnamed_bf)
+                      ldouble=ldouble, alignas=alignas, unnamed_bf=unnamed_bf, zw_alone=zw_alone)
         self.max_depth, self.max_members = max_depth, max_members
         self.n = 0
 
@@ -157,6 +157,9 @@ class Gen:
                 else:
                     ms.append(Member(self.name(), Scalar(base), r.choice([1, 1, 2, 3, 5, 7, 8, 9, 15, 16, 17, 31, 32, 33, 63, 64, r.randrange(1, 65)]) % w + 1 if base != 'bool' else 1))
                 continue
+            if self.o['zw_alone'] and not self.o['bitfields'] and kind == 'struct' and r.random() < 0.25:
+                # a zero-width bit-field on its own (no other bit-fields): only closes the current unit of its declared type
+                ms.append(Member(None, Scalar(r.choice(['i8', 'i16', 'u16', 'i32', 'u32', 'i64', 'u64'])), 0))
             if self.o['anon'] and x < 0.38 and depth < self.max_depth:
                 ms.append(Member(None, self.agg(depth + 1)))
                 continue
